@@ -202,7 +202,9 @@ def run_property(pid, tier, seed, jobs, only=None, verbose=True):
             backlog[name] = []
         while backlog[name] and outstanding[name] < 2 * jobs:
             room = 2 * jobs - outstanding[name]
-            per = max(1, len(backlog[name]) // (2 * room))
+            # small chunks: the backlog stays here instead of travelling
+            # back and forth between the parent and the workers
+            per = min(64, max(1, len(backlog[name]) // (2 * room)))
             chunk, backlog[name] = backlog[name][-per:], backlog[name][:-per]
             submit(name, chunk)
             inflight += 1
